@@ -22,6 +22,9 @@ CHECKS["C04"] = ("model_checking", "bounded-exhaustive explicit-state exploratio
 CHECKS["C05"] = ("model_checking", "bounded-exhaustive exploration of the real code: every physically consistent schedule of N events with inter-event gaps from {0,1,H-1,H,H+1} on every tap-hold variant x timeout x tap-repress window x concurrent-tap-hold config (plus a two-tap-hold family), each execution checked against the TapHoldSpec reference (decision kind + tick), exactly-one-decision and order-preservation invariants",
   "No explored schedule produces zero or two decisions for a press, loses or reorders a buffered key, or decides a kind/tick different from the documented triggers. Exhaustive over the stated schedule space.",
   "timing convention pinned in the rule text; same-millisecond trigger/own-release coincidences and +-1 tick around the tap-repress window are don't-cares", "DESIGN.md §4 C05")
+CHECKS["C17"] = ("model_checking", "bounded-exhaustive exploration of the real code: every physically consistent schedule of N events over the dance key and one other key with gaps from {0,1,T-1,T,T+1}, for lists of length 1-4, lazy and eager, two timeouts, two rapid-event-delay values; checked against the TapDanceSpec reference (set of acceptable press-output sequences) and a tap-accounting invariant",
+  "No explored schedule swallows or doubles a tap, performs an action other than the N-th, lets an interrupting key overtake the chosen action, or releases the chosen action before the final release of the dance key. Exhaustive over the stated schedule space.",
+  "count boundaries within the processing skew (queue delay + rapid-event-delay + 2 ticks) of the timeout are don't-cares; key actions only", "DESIGN.md §4 C17")
 NOT_YET = {}
 props = [json.loads(l) for l in open('/verif/properties.jsonl')]
 hooks_commits = subprocess.run(["git","-C","/repo","log","--format=%h %s"],capture_output=True,text=True).stdout.splitlines()
